@@ -412,6 +412,25 @@ def payload_fns(fx):
     return out
 
 
+def column_fns(fx):
+    """Functions that compute a column: they mention a parameter / field / local whose name contains `column`, or build
+    an `ErrorInfo` (whose constructor takes the column)."""
+    out = set()
+    for fname, b in fx.bodies.items():
+        if fx.is_derive(fname) or b["kind"] not in ("Fn", "AssocFn"):
+            continue
+        if "column" in fname.lower():
+            out.add(fname)
+            continue
+        for node, _ in F.walk(b["hir"]):
+            nm = node.get("name") or ""
+            d = F.norm(node.get("def") or (node.get("res") or {}).get("def") or "")
+            if (isinstance(nm, str) and "column" in nm.lower()) or d.endswith("ErrorInfo::new"):
+                out.add(fname)
+                break
+    return out
+
+
 def r_units(cx, tags, only_fns=None, rule_name="R-UNITS"):
     """`only_fns(fx) -> set of function names`: restrict the rule to those functions (the instances that are a
     necessary condition of the property the rule is attached to; reported under `rule_name`)."""
